@@ -252,6 +252,14 @@ def reset_shared():
         Y()
         return anp.sum(a * a) + anp.sum(anp.sin(x))
 
+    from autograd import checkpoint
+
+    def f6(x, c):
+        a = anp.tanh(x * c) * x
+        Y()
+        return anp.concatenate([a * a, anp.sin(x) + c])
+
+    SHARED["ckpt_f6"] = checkpoint(f6)
     SHARED["hvp_f5"] = hessian_vector_product(f5)
     SHARED["hess_f5"] = hessian(f5)
     SHARED["jac_f4"] = jacobian(f4)
@@ -495,7 +503,23 @@ def programs():
             Y()
         return onp.array(out + [grad(lambda y: y * y * a)(b)])
 
-    return {"T20": T20, "T17": T17, "T18": T18, "T19": T19, "T1": T1, "T2": T2, "T3": T3, "T4": T4, "T5": T5, "T6": T6, "T7": T7, "T8": T8, "T9": T9, "T10": T10, "T11": T11, "T12": T12, "T13": T13, "T14": T14, "T15": T15, "T16": T16}
+    def T21(a, b):
+        # ONE checkpoint(fun) object shared by all threads: each thread pulls several cotangents (a jacobian, two
+        # explicit vjp calls, a second-order product) through its own call of it
+        from autograd import make_vjp
+
+        x = onp.array([0.4, 0.9, -0.7]) * a
+        ck = SHARED["ckpt_f6"]
+        J = jacobian(lambda t: ck(t, b))(x)
+        Y()
+        vj = make_vjp(lambda t: ck(t * 1.0, b))(x)[0]
+        r1 = vj(onp.arange(1.0, 7.0))
+        Y()
+        r2 = vj(onp.ones(6) * b)
+        h = grad(lambda t: anp.sum(grad(lambda u: anp.sum(ck(u, b) ** 2))(t) * onp.array([1.0, -1.0, 0.5])))(x)
+        return onp.concatenate([onp.ravel(J), r1, r2, h])
+
+    return {"T20": T20, "T21": T21, "T17": T17, "T18": T18, "T19": T19, "T1": T1, "T2": T2, "T3": T3, "T4": T4, "T5": T5, "T6": T6, "T7": T7, "T8": T8, "T9": T9, "T10": T10, "T11": T11, "T12": T12, "T13": T13, "T14": T14, "T15": T15, "T16": T16}
 
 
 PARAMS = [(2.0, 1.0), (1.5, 0.7), (0.8, 1.3), (1.1, 0.9)]
@@ -554,7 +578,7 @@ def explore(res, cfg, tier, seed, shard, nshard, budget):
             if violating <= 3:
                 s = dict(sig_base, symptom="schedule_interference")
                 res["violations"].append({"sig": s, "case": {"kind": "schedule", "cfg": cfg, "choices": choices}, "detail": bad + " | schedule " + key})
-        elif SCHED.switches_in_trace > 0 or (len(set(choices)) > 1 and any(nm in ("T11", "T12", "T13", "T15", "T16") for nm in names)):
+        elif SCHED.switches_in_trace > 0 or (len(set(choices)) > 1 and any(nm in ("T11", "T12", "T13", "T15", "T16", "T21") for nm in names)):
             k = sig_key(dict(sig_base, sched=key))
             res["judged"][k] = 1
         else:
@@ -604,7 +628,7 @@ def explore(res, cfg, tier, seed, shard, nshard, budget):
 
 def free_running(res, seed, iters, nthreads):
     P = programs()
-    names = ["T1", "T3", "T6", "T2", "T4", "T5", "T7", "T8", "T9", "T11", "T13", "T14", "T15", "T16", "T17", "T18", "T19", "T20"]
+    names = ["T1", "T3", "T6", "T2", "T4", "T5", "T7", "T8", "T9", "T11", "T13", "T14", "T15", "T16", "T17", "T18", "T19", "T20", "T21"]
     reset_shared()
     SHARED["vjp_f4"](onp.ones(6))  # the free-running stress shares closures that have been used once
     old = sys.getswitchinterval()
@@ -706,6 +730,9 @@ def configs(tier):
     cf.append({"progs": ["T1", "T20"], "kinds": ["enter_before", "exit_after", "explicit"], "mode": "random", "n": 200})
     cf.append({"progs": ["T20", "T1", "T20"], "kinds": KALL, "mode": "random", "n": 150})
     cf.append({"progs": ["T20", "T2", "T1"], "kinds": ["op_before", "exit_before"], "mode": "random", "n": 100})
+    cf.append({"progs": ["T21", "T21"], "kinds": ["explicit"], "mode": "dfs", "budget": 2000})
+    cf.append({"progs": ["T21", "T21"], "kinds": ["explicit", "rule", "exit_before"], "mode": "random", "n": 200})
+    cf.append({"progs": ["T21", "T1", "T21"], "kinds": ["op_before", "explicit"], "mode": "random", "n": 120})
     cf.append({"progs": ["T5", "T5"], "kinds": ["rule"], "mode": "random", "n": 200})
     cf.append({"progs": ["T5", "T4"], "kinds": ["line_bp"], "mode": "random", "n": 120})
     cf.append({"progs": ["T5", "T5"], "kinds": ["line_rules"], "mode": "random", "n": 200})
